@@ -23,6 +23,9 @@ CLAIMS = {
  "C07": ("On the transcribed parser: for every token list the recovery step (skipToNextLine) stops right after the first Newline token and only drops a prefix, and the lexer makes progress on arbitrary damage. The containment statement is decided per run: journals from G with one entry damaged in eight ways (random bytes, truncation, deleted / duplicated / reordered lines, unbalanced quotes or brackets, stray operators, junk) are parsed by the real parser, and every other entry must keep its content and (shifted) line while syntax errors stay on the damaged lines; the parser model must equal the real parser on the damaged text (full AST).",
          "PARTIAL: the universal containment theorem is not proved; proved parts are the recovery lemmas and lexer progress. Trusted: transcription (full-AST tie), G generator in Go.",
          "Coq recovery lemmas on the transcribed parser + full-AST correspondence on damaged texts + containment oracle", "5 C07"),
+ "C08": ("The range producers are modelled on the AST and composed with the transcribed lexer and parser, so the model computes document symbols, links, folding ranges, diagnostics ranges, hover and prepareRename ranges from the TEXT alone; it equals the implementation on every generated document. A validator (in-document, start <= end, UTF-16 code-point boundaries, covers-its-text, laminar folds/symbols) is specified and its meaning proved; the full statement is refuted by machine-checked witnesses through the composed model (non-BMP rune columns, payee estimate, fold overlap), recorded with four more classes as known findings. Every run validates every range of 10 features at every element of generated journals.",
+         "PARTIAL: no universal well-formedness theorem yet (ceiling: lexer position invariant => ranges on BMP-only lines are well-formed); references/definition/workspace-symbol/completion ranges are validated on implementation output only. Trusted: transcriptions (tied), G generator.",
+         "Coq refutation witnesses through composed text->range model + validator oracle on every feature's ranges", "5 C08"),
  "C09": ("references.go / definition.go / rename.go are modelled on ASTs; C09_references_exact proves for every set of consulted journals that the answer is exactly the symbol's occurrences (declarations when asked), attributed to the path each journal is filed under, and that sorting/de-duplication neither lose nor invent locations; with the requesting document as primary every file is consulted under its own path (partial). The full statement is refuted for requests from included files in workspace mode (known finding). Every run requests references (with/without declarations) and rename on every account, commodity and payee of generated multi-file workspaces, from root and included files, with and without root and unsaved edits, applies the rename edits and compares with the occurrence set of the scope.",
          "Trusted: Coq kernel+VM; ASTs and the resolved journal are inputs (real parser/loader); rename application and expected texts are computed by the harness. Known findings: workspace_request_from_include, directive_range_end_unset, no_root_edit_truncates_tree.",
          "Coq proof of exact reference sets on the AST model + occurrence-set and applied-rename oracle", "5 C09"),
